@@ -167,17 +167,20 @@ inductive SliceKind where
   | valueError
   deriving Repr, DecidableEq
 
+/-- `val is None or val >= 0` -/
+def noneOrNonneg (v : Option Int) : Bool :=
+  match v with
+  | none => true
+  | some i => decide (i ≥ 0)
+
 /-- `Slice.__init__` for the three-argument form `(start, stop, step)`; the one-argument form
 `Slice(stop)` is `(None, stop, None)` (as `slice(*args)` and `islice(it, stop)` both read it).
 `step` is `none` or an integer. -/
 def mkSlice (start stop step : Option Int) : SliceKind :=
-  let nonneg (v : Option Int) : Bool := match v with | none => true | some i => i ≥ 0
-  if nonneg start && nonneg stop && nonneg step then
+  if noneOrNonneg start && noneOrNonneg stop && noneOrNonneg step then
     -- islice validates: step must be ≥ 1 (or None)
-    match step with
-    | some 0 => .valueError
-    | _ =>
-      .islice (start.getD 0).toNat (stop.map Int.toNat) ((step.getD 1).toNat)
+    if step = some 0 then .valueError
+    else .islice (start.getD 0).toNat (stop.map Int.toNat) ((step.getD 1).toNat)
   else
     let st : Int := step.getD 1
     if st ≤ 0 then .valueError
